@@ -40,6 +40,9 @@ type MemDB struct {
 	FailNextAt    int // Next fails instead of delivering row k (k == len(Rows): fails instead of EOF)
 	Commits       int
 	Rollbacks     int
+	// ReuseBuffers makes the driver hand out []byte values from one scratch buffer per column that is
+	// overwritten by the next row (allowed by database/sql: the memory is owned by the driver)
+	ReuseBuffers bool
 	// Delivered counts the faults the driver actually returned (a planned fault that the code under test
 	// never reaches - e.g. the 3rd Prepare when the statement is prepared once - is not a fault)
 	Delivered int
@@ -145,8 +148,9 @@ func (s *memStmt) Query(args []driver.Value) (driver.Rows, error) {
 }
 
 type memRows struct {
-	m   *MemDB
-	pos int
+	m       *MemDB
+	pos     int
+	scratch [][]byte
 }
 
 func (r *memRows) Columns() []string { return r.m.Cols }
@@ -160,6 +164,21 @@ func (r *memRows) Next(dest []driver.Value) error {
 		return io.EOF
 	}
 	copy(dest, r.m.Rows[r.pos])
+	if r.m.ReuseBuffers {
+		if r.scratch == nil {
+			r.scratch = make([][]byte, len(dest))
+		}
+		for i, v := range dest {
+			if b, ok := v.([]byte); ok {
+				// poison what the previous row was given, then reuse the buffer
+				for j := range r.scratch[i] {
+					r.scratch[i][j] = '#'
+				}
+				r.scratch[i] = append(r.scratch[i][:0], b...)
+				dest[i] = r.scratch[i]
+			}
+		}
+	}
 	r.pos++
 	return nil
 }
